@@ -15,11 +15,11 @@ def monitor(case):
     """Property C19 evaluated on what the two real controllers did.  The store
     comparison runs inside the harness at every completion and at the end of
     the run (field `viol`); completions are re-counted here from the observed
-    control-port traffic.  Sound: only classes `uni`/`bidir` (page sizes that
+    control-port traffic.  Sound: only classes `uni`/`bidir`/`stall` (page sizes that
     are multiples of 64, no third party) are judged."""
     if case.get('viol'):
         return case['viol']
-    if case['class'] not in ('uni', 'bidir'):
+    if case['class'] not in ('uni', 'bidir', 'stall'):
         return None
     if any(e.get('crash') for e in case['events']):
         return 'a controller panicked on protocol-respecting traffic'
@@ -75,7 +75,7 @@ DRV_HEADER = 'From VDrv Require Import Migration.\nOpen Scope N_scope.\n'
 
 
 def nontrivial(case):
-    return case['class'] in ('uni', 'bidir') and sum(case['completed']) >= 1 and case['chunks'] >= 2
+    return case['class'] in ('uni', 'bidir', 'stall') and sum(case['completed']) >= 1 and case['chunks'] >= 2
 
 
 def eval_model(cases):
@@ -217,6 +217,7 @@ def main(argv):
         'evaluations': len(cases),
         'distinct_nontrivial': len({vlib.case_hash(strip(c)) for c in cases if nontrivial(c)}),
         'rule': 'random schedules of two real controllers (classes: uni = requests to one controller, bidir = both directions on disjoint regions, '
+                'stall = 3-5 requests back to back while completions are left in the control port for a long stretch, '
                 'odd = page sizes that are not multiples of 64, hostile = a third party injects pull requests); 1-3 requests per controller, '
                 'pages of 64..16384 bytes, random weights per event kind, out-of-range deliveries, then a fair drain; '
                 'non-trivial = monitored class, at least 2 chunks and at least one completed migration',
@@ -226,9 +227,10 @@ def main(argv):
         'class_histogram': dict(collections.Counter(c['class'] for c in cases)),
         'page_size_histogram': dict(collections.Counter(str(c['maxpage']) for c in cases)),
         'migrations_completed': sum(sum(c['completed']) for c in cases),
-        'chunks_moved': sum(c['chunks'] for c in cases if c['class'] in ('uni', 'bidir')),
+        'chunks_moved': sum(c['chunks'] for c in cases if c['class'] in ('uni', 'bidir', 'stall')),
         'refused_deliveries': sum(c['refusals'] for c in cases),
         'out_of_order_deliveries': sum(c['reordered'] for c in cases),
+        'stalled_completions': sum(1 for c in cases if c['class'] == 'stall' and sum(c['completed']) >= 3),
         'quiescent_cases': sum(1 for c in cases if c['quiescent']),
         'hostile_cases_with_misrouting_effect': len(misrouted),
         'system_level_runs': 0,
